@@ -27,7 +27,9 @@ import (
 //   2  witness: the overlap across a page roll-over, then ack + GC
 //   3  sequential history with page roll-over, a Put of exactly / more than one page, crash images
 //   4… random: sequential histories (put/get/ack/gc/reopen/crash after k stores), scheduled
-//      interleavings without restart, scheduled interleavings with reopen/crash/gc
+//      interleavings without restart, scheduled interleavings with reopen/crash/gc;
+//      i%10 == 8: the page factory driven directly (factory.go); i%10 == 9: replica/partition.go
+//      over a real FanOutQueue (partition.go); i%100 == 19: the partition API across a roll-over
 //
 // Oracle (on the implementation's own observations): every Put that returned nil got
 // sequence appended+1; after every operation Get(seq) of every returned-and-unacknowledged
@@ -966,6 +968,12 @@ func (a area) Run(c *core.Ctx) error {
 					r.indexPagesCase(rng)
 				case big:
 					r.bigCase(rng)
+				case i%100 == 19:
+					r.partRollCase(rng) // replica/partition.go across a data page roll-over + IsExpire
+				case i%10 == 8:
+					r.fctCase(rng) // page factory driven directly (factory.go)
+				case i%10 == 9:
+					r.partCase(rng) // replica/partition.go glue over a real FanOutQueue (partition.go)
 				case k < 48:
 					r.seqCase(rng)
 				case k < 60:
